@@ -98,6 +98,14 @@ func (f *FnVC) doCall(st *State, instr ssa.Instruction, c *ssa.CallCommon, keys 
 	}
 	if site != nil {
 		site.res = res
+		if site.mergedInto != nil {
+			prev := site.mergedWith.res
+			if prev.Tuple == nil && res.Tuple == nil && prev.T.Sort == res.T.Sort && res.T.S != "" {
+				site.mergedInto.res = f.mergeVal(st.Reach, res, prev)
+			} else {
+				site.mergedInto.res = res
+			}
+		}
 		for _, ac := range site.post {
 			f.atCallAssume(st, ac, site)
 		}
@@ -127,7 +135,9 @@ func matchCallee(pattern, display string) bool {
 
 type siteRec struct {
 	callSite
-	post []*spec.AtCall
+	post       []*spec.AtCall
+	mergedWith *callSite
+	mergedInto *callSite
 }
 
 func (f *FnVC) noteSite(st *State, c *ssa.CallCommon, display string, args []Val, res Val, pos token.Pos) *siteRec {
@@ -142,9 +152,7 @@ func (f *FnVC) noteSite(st *State, c *ssa.CallCommon, display string, args []Val
 		if ac.ArgType != "" && !f.argTypeMatches(c, ac.ArgType) {
 			continue
 		}
-		okey := fmt.Sprintf("%p", ac)
-		f.calleeOrd[okey]++
-		if ac.Ordinal != 0 && ac.Ordinal != f.calleeOrd[okey] {
+		if ac.Ordinal != 0 && ac.Ordinal != f.sourceOrdinal(ac, pos) {
 			continue
 		}
 		f.acMatched[ac]++
@@ -154,7 +162,16 @@ func (f *FnVC) noteSite(st *State, c *ssa.CallCommon, display string, args []Val
 		if ac.Label != "" {
 			// several matches of one label merge: called = OR, values = ite
 			if prev, ok := f.sites[ac.Label]; ok {
-				merged := &callSite{label: ac.Label, reach: or(prev.reach, st.Reach), args: args, res: res}
+				merged := &callSite{label: ac.Label, reach: or(prev.reach, st.Reach), res: res}
+				for i, a := range args {
+					if i < len(prev.args) && prev.args[i].Tuple == nil && a.Tuple == nil && prev.args[i].T.Sort == a.T.Sort {
+						merged.args = append(merged.args, f.mergeVal(st.Reach, a, prev.args[i]))
+					} else {
+						merged.args = append(merged.args, a)
+					}
+				}
+				rec.mergedWith = prev
+				rec.mergedInto = merged
 				f.sites[ac.Label] = merged
 			} else {
 				f.sites[ac.Label] = &rec.callSite
@@ -666,4 +683,57 @@ func (f *FnVC) runDefers(st *State) {
 func (f *FnVC) builtinWithArgs(st *State, b *ssa.Builtin, args []Val, rt types.Type, pos token.Pos) {
 	// only side-effect free or unmodelled builtins are deferred in practice (close, recover, delete)
 	f.abstracted("deferred builtin " + b.Name())
+}
+
+// placeholderSite: a labelled call site that has not been executed on the paths processed so far. Its values are
+// arbitrary and called(label) is false; it only gives res()/arg() a well-typed meaning in implications.
+func (f *FnVC) placeholderSite(label string) *callSite {
+	if f.placeholders == nil {
+		f.placeholders = map[string]*callSite{}
+	}
+	if s, ok := f.placeholders[label]; ok {
+		return s
+	}
+	if f.Ct == nil {
+		return nil
+	}
+	for _, b := range f.Fn.Blocks {
+		for _, in := range b.Instrs {
+			var c *ssa.CallCommon
+			var rtv ssa.Value
+			switch x := in.(type) {
+			case *ssa.Call:
+				c, rtv = &x.Call, x
+			case *ssa.Defer:
+				c = &x.Call
+			case *ssa.Go:
+				c = &x.Call
+			}
+			if c == nil {
+				continue
+			}
+			_, _, display := f.calleeKeys(c)
+			for _, ac := range f.Ct.AtCalls {
+				if ac.Label != label || !matchCallee(ac.Pattern, display) {
+					continue
+				}
+				if ac.ArgType != "" && !f.argTypeMatches(c, ac.ArgType) {
+					continue
+				}
+				s := &callSite{label: label, reach: boolLit(false)}
+				if c.IsInvoke() {
+					s.args = append(s.args, f.freshVal("ph_arg", c.Value.Type()))
+				}
+				for _, a := range c.Args {
+					s.args = append(s.args, f.freshVal("ph_arg", a.Type()))
+				}
+				if rtv != nil {
+					s.res = f.freshVal("ph_res", rtv.Type())
+				}
+				f.placeholders[label] = s
+				return s
+			}
+		}
+	}
+	return nil
 }
